@@ -709,19 +709,32 @@ func checkLPP(c *facet.Ctx, in NumCase) *facet.Failure {
 	case "log", "pow":
 		nonTrivialNum(c, in.A)
 		x, y := xOf(in.A[0]), xOf(in.A[1])
-		if x.inf != 0 || y.inf != 0 {
+		if (x.inf != 0 || y.inf != 0) && in.Fn == "log" {
 			c.Label("ref_abstains")
 			c.Label("ref_abstains:infinite-operand")
 			return nil
 		}
 		// The implementation is documented only by its Description; the
 		// property allows float64 reference arithmetic: operands rounded to
-		// the nearest float64, math.Log / math.Pow.
-		xf, _ := x.f.Float64()
-		yf, _ := y.f.Float64()
-		if math.IsInf(xf, 0) || math.IsInf(yf, 0) {
+		// the nearest float64, math.Log / math.Pow (an infinite operand of pow
+		// is the float64 infinity).
+		f64 := func(v xnum) float64 {
+			if v.inf != 0 {
+				return math.Inf(v.inf)
+			}
+			f, _ := v.f.Float64()
+			if math.IsInf(f, 0) {
+				return math.NaN() // finite but beyond float64: marker, see below
+			}
+			return f
+		}
+		xf, yf := f64(x), f64(y)
+		if math.IsNaN(xf) || math.IsNaN(yf) {
 			c.Label("out-of-domain:beyond-float64")
 			return nil
+		}
+		if x.inf != 0 || y.inf != 0 {
+			c.Label("infinite-operand")
 		}
 		var want float64
 		if in.Fn == "log" {
@@ -732,14 +745,38 @@ func checkLPP(c *facet.Ctx, in NumCase) *facet.Failure {
 			want = math.Log(xf) / math.Log(yf)
 		} else {
 			want = math.Pow(xf, yf)
-			if want == 0 && xf != 0 {
-				c.Label("ref_abstains")
-				c.Label("ref_abstains:pow-underflow")
-				return nil
-			}
 		}
 		if math.IsNaN(want) {
 			c.Label("out-of-domain:nan")
+			return nil
+		}
+		if in.Fn == "pow" && math.IsInf(want, 0) && xf == 0 {
+			// zero raised to a negative power: a division by zero, not described
+			c.Label("ref_abstains")
+			c.Label("ref_abstains:zero-to-negative-power")
+			return nil
+		}
+		if in.Fn == "pow" && (math.IsInf(want, 0) || (want == 0 && xf != 0)) {
+			// the float64 reference overflows to an infinity or underflows to
+			// zero: the exact power is a real number, so the call is inside
+			// the domain and the float64 answer is the reference
+			o := call(stdlib.PowFunc, in.ctyArgs()...)
+			got, fl := numResult(in.Fn, o, in)
+			if fl != nil {
+				return fl
+			}
+			c.Label("asserted")
+			if math.IsInf(want, 0) {
+				c.Label("float64-overflow")
+				if !got.IsInf() || got.Sign() != int(math.Copysign(1, want)) {
+					return mismatch(in.Fn, in, func() float64 { f, _ := got.Float64(); return f }(), want)
+				}
+				return nil
+			}
+			c.Label("float64-underflow")
+			if got.Sign() != 0 {
+				return mismatch(in.Fn, in, func() float64 { f, _ := got.Float64(); return f }(), want)
+			}
 			return nil
 		}
 		if math.IsInf(want, 0) {
